@@ -436,4 +436,119 @@ example : (1 : Rat) * (4/5) + 3 * (3/5) ≤ 1 + |(1 - 4/5) * 1 - (3/5) * 3| := b
     (by norm_num) (by norm_num) (by norm_num) (by norm_num) (le_refl _) (by norm_num)
   linarith
 
+/-! ### histories: the answers after any sequence of public mutations, and the scenario population after add / remove
+
+  The dispatch theorems above hold for every value of `(tInit, prediction)`; a history only decides WHICH value an obstacle
+  holds when it is asked.  The theorems below say that nothing else of the past survives: the role is fixed, the last
+  `update_initial_state` leaves exactly the new initial step, a replaced prediction leaves no trace, and the scenario
+  queries after `add_objects` / `remove_obstacle` are the old answers plus / minus the per-obstacle answers of that one id. -/
+
+theorem C04_history_role (o : Obst) (ms : List Mut) : (o.run ms).role = o.role := by
+  unfold Obst.run
+  induction ms generalizing o with
+  | nil => rfl
+  | cons m ms ih =>
+    rw [List.foldl_cons, ih]
+    cases o <;> cases m <;> rfl
+
+/-- after `update_initial_state(state of step t')`: the initial occupancy / state at `t'`, nothing anywhere else —
+    whatever prediction and initial step the obstacle had before. -/
+theorem C04_after_update_initial (tInit : Int) (p : Pred) (t' t : Int) :
+    occupancyAt ((Obst.dynamic tInit p).apply (.updateInitial t')) t = (if t = t' then some .init else none) ∧
+    stateAt ((Obst.dynamic tInit p).apply (.updateInitial t')) t = (if t = t' then some .init else none) := by
+  simp only [Obst.apply, occupancyAt, stateAt, predOccAt]
+  by_cases h : t = t' <;> simp [h]
+
+/-- a replaced prediction leaves no trace: the answers are those of an obstacle built with the new prediction. -/
+theorem C04_after_set_prediction (tInit : Int) (p q : Pred) (t : Int) :
+    occupancyAt ((Obst.dynamic tInit p).apply (.setPrediction q)) t = occupancyAt (.dynamic tInit q) t ∧
+    stateAt ((Obst.dynamic tInit p).apply (.setPrediction q)) t = stateAt (.dynamic tInit q) t := ⟨rfl, rfl⟩
+
+/-- a history that ends with `update_initial_state`: only the new initial step answers, for EVERY earlier history. -/
+theorem C04_history_ends_update (tInit : Int) (p : Pred) (ms : List Mut) (t' t : Int) :
+    occupancyAt ((Obst.dynamic tInit p).run (ms ++ [.updateInitial t'])) t = (if t = t' then some .init else none) := by
+  have hr := C04_history_role (.dynamic tInit p) ms
+  unfold Obst.run at hr ⊢
+  rw [List.foldl_append]
+  simp only [List.foldl_cons, List.foldl_nil]
+  cases h : List.foldl Obst.apply (Obst.dynamic tInit p) ms with
+  | dynamic ti q => exact (C04_after_update_initial ti q t' t).1
+  | static _ => rw [h] at hr; cases hr
+  | phantom _ => rw [h] at hr; cases hr
+  | environment => rw [h] at hr; cases hr
+
+/-- a history that ends with a new prediction: beyond the (current) initial step the answer is the new prediction's. -/
+theorem C04_history_ends_set_prediction (tInit : Int) (p q : Pred) (ms : List Mut) (t : Int) :
+    ∃ ti, (Obst.dynamic tInit p).run (ms ++ [.setPrediction q]) = .dynamic ti q ∧
+      (ti < t → occupancyAt ((Obst.dynamic tInit p).run (ms ++ [.setPrediction q])) t = predOccAt q t) := by
+  have hr := C04_history_role (.dynamic tInit p) ms
+  unfold Obst.run at hr ⊢
+  rw [List.foldl_append]
+  simp only [List.foldl_cons, List.foldl_nil]
+  cases h : List.foldl Obst.apply (Obst.dynamic tInit p) ms with
+  | dynamic ti r =>
+    refine ⟨ti, rfl, ?_⟩
+    intro hlt
+    have hne : t ≠ ti := by omega
+    simp [Obst.apply, occupancyAt, hne, hlt]
+  | static _ => rw [h] at hr; cases hr
+  | phantom _ => rw [h] at hr; cases hr
+  | environment => rw [h] at hr; cases hr
+
+theorem C04_scn_add_dup (s : Scn) (i : Nat) (o : Obst) (h : s.idUsed i = true) : s.add i o = .error .value := by
+  simp [Scn.add, h]
+
+theorem C04_scn_add_mem (s s' : Scn) (i : Nat) (o : Obst) (h : s.add i o = .ok s') (x : Nat × Obst) :
+    x ∈ s'.obstacles ↔ x ∈ s.obstacles ∨ x = (i, o) := by
+  unfold Scn.add at h
+  split at h
+  · cases h
+  · injection h with h
+    subst h
+    cases hr : o.role <;> simp [Scn.obstacles, List.mem_append] <;> tauto
+
+theorem C04_scn_remove_mem (s : Scn) (i : Nat) (x : Nat × Obst) :
+    x ∈ (s.remove i).obstacles ↔ x ∈ s.obstacles ∧ x.1 ≠ i := by
+  simp [Scn.remove, Scn.obstacles, List.mem_append, List.mem_filter]
+  tauto
+
+/-- `occupancies_at_time_step` after `add_objects(o)` with a free id: the old answers and the per-obstacle answer of `o`. -/
+theorem C04_scn_occupancies_after_add (s s' : Scn) (i : Nat) (o : Obst) (h : s.add i o = .ok s')
+    (t : Int) (role : Option Role) (j : Nat) (oc : Occ) :
+    (j, oc) ∈ occupanciesAt s'.obstacles t role ↔
+      (j, oc) ∈ occupanciesAt s.obstacles t role ∨
+        (j = i ∧ (role = none ∨ role = some o.role) ∧ occupancyAt o t = some oc) := by
+  simp only [C04_occupancies_iff, C04_scn_add_mem s s' i o h]
+  constructor
+  · rintro ⟨o', hm | hm, hr, ho⟩
+    · exact Or.inl ⟨o', hm, hr, ho⟩
+    · injection hm with h1 h2; subst h1; subst h2; exact Or.inr ⟨rfl, hr, ho⟩
+  · rintro (⟨o', hm, hr, ho⟩ | ⟨rfl, hr, ho⟩)
+    · exact ⟨o', Or.inl hm, hr, ho⟩
+    · exact ⟨o, Or.inr rfl, hr, ho⟩
+
+/-- … and after `remove_obstacle`: the old answers without those of the removed id. -/
+theorem C04_scn_occupancies_after_remove (s : Scn) (i : Nat) (t : Int) (role : Option Role) (j : Nat) (oc : Occ) :
+    (j, oc) ∈ occupanciesAt (s.remove i).obstacles t role ↔ j ≠ i ∧ (j, oc) ∈ occupanciesAt s.obstacles t role := by
+  simp only [C04_occupancies_iff, C04_scn_remove_mem]
+  constructor
+  · rintro ⟨o', ⟨hm, hne⟩, hr, ho⟩; exact ⟨hne, o', hm, hr, ho⟩
+  · rintro ⟨hne, o', hm, hr, ho⟩; exact ⟨o', ⟨hm, hne⟩, hr, ho⟩
+
+theorem C04_scn_states_after_remove (s : Scn) (i : Nat) (t : Int) (j : Nat) (st : StRef) :
+    (j, st) ∈ statesAt (s.remove i).obstacles t ↔ j ≠ i ∧ (j, st) ∈ statesAt s.obstacles t := by
+  simp only [C04_states_iff, C04_scn_remove_mem]
+  constructor
+  · rintro ⟨o', ⟨hm, hne⟩, h⟩; exact ⟨hne, o', hm, h⟩
+  · rintro ⟨hne, o', hm, h⟩; exact ⟨o', ⟨hm, hne⟩, h⟩
+
+/-- a negative time step is rejected by the scenario-level queries before anything is computed -/
+theorem C04_scn_negative_step (obs : List (Nat × Obst)) (t : Int) (role : Option Role) (h : t < 0) :
+    occupanciesAtChk obs t role = .error .assert ∧ statesAtChk obs t = .error .assert := by
+  simp [occupanciesAtChk, statesAtChk, h]
+
+example : (Obst.dynamic 0 (.traj 1 [1, 2])).run [.setPrediction (.setBased [.step 4]), .updateInitial 3, .keep] = .dynamic 3 .none := rfl
+example : ((({} : Scn).addMany [(4, .static 0), (2, .dynamic 0 .none), (4, .environment), (7, .environment)]).1.obstacles.map (·.1), 
+    (({} : Scn).addMany [(4, .static 0), (2, .dynamic 0 .none), (4, .environment), (7, .environment)]).2) = ([4, 2], false) := by decide
+
 end CR.Occ
